@@ -420,6 +420,9 @@ func Harness_Act(n int, layout int, street int, limit int, cur int, op int) {
 			}
 		}
 		vAssert(vOr(vOr(alive == 1, movable == 0), vAnd(vAnd(settled, turnsDone), st.CurrentWager == pre.cw)), "C05.closed-only-when-settled")
+		// C04: the turn passes seat by seat - folded and all-in seats are asked to pass too - so the
+		// round cannot close while a seat has not had its turn
+		vAssert(vOr(vOr(alive == 1, movable == 0), turnsDone), "C04.round-closes-only-after-every-seat-had-its-turn")
 		vCover("act.closes")
 	}
 }
